@@ -156,6 +156,7 @@ Proof.
   apply FS_step. apply ST_dot_name. apply Bare; [discriminate| |reflexivity].
   apply NB_char; [|constructor]. split; [|discriminate]. unfold name_delimiter. cbn. intuition discriminate.
 Qed.
+Print Assumptions C09_grammar_instance.
 
 (* one path in three spellings: $.a[last - 1]   $."a"[LAST-1]   ` $ .a [ last  -  1 ] ` *)
 Example C09_three_spellings_one_structure :
@@ -164,6 +165,7 @@ Example C09_three_spellings_one_structure :
   parse_json_path [36; 46; 34; 97; 34; 91; 76; 65; 83; 84; 45; 49; 93] = Ok ps /\
   parse_json_path [32; 36; 32; 46; 97; 32; 91; 32; 108; 97; 115; 116; 32; 32; 45; 32; 32; 49; 32; 93; 32] = Ok ps.
 Proof. vm_compute. repeat split; reflexivity. Qed.
+Print Assumptions C09_three_spellings_one_structure.
 
 (* $.a > 1 || $.b > 2 && $.c > 3  is  a || (b && c) *)
 Example C09_and_binds_tighter_than_or :
@@ -172,6 +174,7 @@ Example C09_and_binds_tighter_than_or :
                              (EBin OAnd (EBin OGt (EPaths [PRoot; PDotField [98]]) (EValue (PVNum (NUInt 2))))
                                         (EBin OGt (EPaths [PRoot; PDotField [99]]) (EValue (PVNum (NUInt 3))))))].
 Proof. vm_compute. reflexivity. Qed.
+Print Assumptions C09_and_binds_tighter_than_or.
 
 (* literals: $?(@.a == 1.5e3 && @.b != "")  — an exponent number (1500.0 = 0x4097700000000000) and the empty string;
    $.a == -1 — a negative number on the right *)
@@ -182,6 +185,7 @@ Example C09_literals :
   parse_json_path [36; 46; 97; 32; 61; 61; 32; 45; 49]
   = Ok [PPredicate (EBin OEq (EPaths [PRoot; PDotField [97]]) (EValue (PVNum (NInt (-1)))))].
 Proof. vm_compute. split; reflexivity. Qed.
+Print Assumptions C09_literals.
 
 (* unrooted paths of the grammar that the parser does not read as paths (confirmed on the real crate):
    `5.e` (field e of field 5) is rejected — a dangling exponent is a hard failure of the number reader — while `5.f` is
@@ -193,6 +197,7 @@ Example C09_unrooted_forms_read_as_expressions :
     = Ok [PPredicate (EArithB BMul (EValue (PVNum (NFloat 4617315517961601024))) (EValue (PVNum (NFloat 4602678819172646912))))] /\
   parse_json_path [] = Ok [].
 Proof. vm_compute. repeat split; reflexivity. Qed.
+Print Assumptions C09_unrooted_forms_read_as_expressions.
 
 (* soundness (what the parser accepts is in the grammar), first fragment: what inner_path reads as
    .*  [*]  .name  ."name"  :name  :"name"  ["name"]  is a step of the grammar with that meaning.
@@ -290,6 +295,7 @@ Definition C09_rejected_and_outside (t : list N) : Prop := parse_json_path t = E
 Lemma C09_rejected_outside_by_computation t :
   parse_json_path t = Err EOther -> starts_like_b (multispace0 t) = false -> C09_rejected_and_outside t.
 Proof. intros He Hs. split; [exact He|]. apply (rejected_outside_partial t EOther He). apply starts_like_b_false. exact Hs. Qed.
+Print Assumptions C09_rejected_outside_by_computation.
 
 (* every expression of the crate's own rejection test (tests/it/jsonpath_parser.rs, test_json_path_error):
    $.[   $X   $.   $.prop.   $.prop+.   $..   $.prop..   $.foo bar   $[0, 1, 2 4]   $['1','2',]   $['1', ,'3']
